@@ -130,6 +130,17 @@ func stateRule(c *an.Ctx, rule string) {
 	for f := range reach {
 		all = append(all, f)
 	}
+	// package-level variables are process-wide whoever writes them: for those, every function of the module counts
+	// (a constructor that registers something in a package-level table makes one Set's behaviour depend on another's)
+	inReach := map[*an.Fn]bool{}
+	for _, f := range all {
+		inReach[f] = true
+	}
+	for _, f := range p.Fns {
+		if !inReach[f] {
+			all = append(all, f)
+		}
+	}
 	sort.Slice(all, func(i, j int) bool { return all[i].Pos() < all[j].Pos() })
 	for _, f := range all {
 		if f.Body == nil || !p.IsModulePkg(f.Pkg.Types) {
@@ -146,24 +157,24 @@ func stateRule(c *an.Ctx, rule string) {
 			switch s := n.(type) {
 			case *ast.AssignStmt:
 				for _, l := range s.Lhs {
-					if what, typ := storage(f, l); what != "" {
+					if what, typ := storage(f, l); what != "" && (inReach[f] || strings.HasPrefix(what, "var ")) {
 						sites = append(sites, site{f, l.Pos(), what, "assigned", classify(f, what, typ)})
 					}
 				}
 			case *ast.IncDecStmt:
-				if what, typ := storage(f, s.X); what != "" {
+				if what, typ := storage(f, s.X); what != "" && (inReach[f] || strings.HasPrefix(what, "var ")) {
 					sites = append(sites, site{f, s.Pos(), what, "incremented", classify(f, what, typ)})
 				}
 			case *ast.CallExpr:
 				name := an.CalleeName(info, s)
 				if name == "builtin.delete" && len(s.Args) == 2 {
-					if what, typ := storage(f, s.Args[0]); what != "" {
+					if what, typ := storage(f, s.Args[0]); what != "" && (inReach[f] || strings.HasPrefix(what, "var ")) {
 						sites = append(sites, site{f, s.Pos(), what, "entry deleted", classify(f, what, typ)})
 					}
 				}
 				if sel, ok := an.Unparen(s.Fun).(*ast.SelectorExpr); ok {
 					if tv, ok := info.Types[sel.X]; ok && isSyncType(tv.Type) != "" && !readOnly[sel.Sel.Name] {
-						if what, typ := storage(f, sel.X); what != "" {
+						if what, typ := storage(f, sel.X); what != "" && (inReach[f] || strings.HasPrefix(what, "var ")) {
 							sites = append(sites, site{f, s.Pos(), what, sel.Sel.Name, classify(f, what, typ)})
 						}
 					}
